@@ -26,7 +26,7 @@ fn feed<D: DiffHook>(d: &mut D, script: &[DiffOp]) -> Result<(), D::Error> {
     d.finish()
 }
 
-fn replay_stack(stack: usize, script: &[DiffOp], old: &[u8], new: &[u8]) -> Result<Vec<DiffOp>, String> {
+fn replay_stack<T: PartialEq>(stack: usize, script: &[DiffOp], old: &[T], new: &[T]) -> Result<Vec<DiffOp>, String> {
     subject(|| match stack {
         0 => {
             let mut d = Replace::new(Capture::new());
@@ -47,7 +47,7 @@ fn replay_stack(stack: usize, script: &[DiffOp], old: &[u8], new: &[u8]) -> Resu
     .map_err(|p| format!("{}: panic: {}", STACKS[stack], p))
 }
 
-pub fn check_script(script: &[DiffOp], old: &[u8], new: &[u8]) -> Result<u64, String> {
+pub fn check_script<T: PartialEq>(script: &[DiffOp], old: &[T], new: &[T]) -> Result<u64, String> {
     let (n, m) = (old.len(), new.len());
     let mut del = 0;
     let mut ins = 0;
@@ -170,6 +170,126 @@ fn script_from_json(v: &Value) -> Result<Vec<DiffOp>, String> {
     Ok(out)
 }
 
+// ---- large scripts ------------------------------------------------------------------------
+
+fn calls_to_ops(calls: &[crate::instr::Call]) -> Vec<DiffOp> {
+    use crate::instr::Call;
+    let mut v = vec![];
+    for c in calls {
+        match *c {
+            Call::Eq(o, n, l) => v.push(DiffOp::Equal { old_index: o, new_index: n, len: l }),
+            Call::Del(o, l, n) => v.push(DiffOp::Delete { old_index: o, old_len: l, new_index: n }),
+            Call::Ins(o, n, l) => v.push(DiffOp::Insert { old_index: o, new_index: n, new_len: l }),
+            Call::Rep(o, ol, n, nl) => {
+                v.push(DiffOp::Delete { old_index: o, old_len: ol, new_index: n });
+                v.push(DiffOp::Insert { old_index: o + ol, new_index: n, new_len: nl });
+            }
+            Call::Fin => {}
+        }
+    }
+    v
+}
+
+/// valid scripts for one large input: what each algorithm emits raw, plus hand-built ones
+fn scripts_for(inp: &super::large::LargeInput) -> Result<Vec<(String, Vec<DiffOp>)>, String> {
+    let (old, new) = (&inp.old[..], &inp.new[..]);
+    let (n, m) = (old.len(), new.len());
+    let mut out = vec![];
+    for &alg in ALGS.iter() {
+        if alg == similar::Algorithm::Lcs && n.max(m) > 300 {
+            continue;
+        }
+        let calls = raw_stream(alg, 0, old, 0..n, new, 0..m)?;
+        out.push((format!("raw {} stream", alg_name(alg)), calls_to_ops(&calls)));
+    }
+    let p = old.iter().zip(new.iter()).take_while(|(a, b)| a == b).count();
+    let sfx = old[p..].iter().rev().zip(new[p..].iter().rev()).take_while(|(a, b)| a == b).count();
+    let (dm, im) = (n - p - sfx, m - p - sfx);
+    for variant in 0..3 {
+        let mut v = vec![];
+        if p > 0 {
+            v.push(DiffOp::Equal { old_index: 0, new_index: 0, len: p });
+        }
+        match variant {
+            0 => {
+                if dm > 0 {
+                    v.push(DiffOp::Delete { old_index: p, old_len: dm, new_index: p });
+                }
+                if im > 0 {
+                    v.push(DiffOp::Insert { old_index: p + dm, new_index: p, new_len: im });
+                }
+            }
+            1 => {
+                if im > 0 {
+                    v.push(DiffOp::Insert { old_index: p, new_index: p, new_len: im });
+                }
+                if dm > 0 {
+                    v.push(DiffOp::Delete { old_index: p, old_len: dm, new_index: p + im });
+                }
+            }
+            _ => {
+                // unit ops, interleaved
+                let (mut o, mut nn) = (p, p);
+                while o < p + dm || nn < p + im {
+                    if o < p + dm {
+                        v.push(DiffOp::Delete { old_index: o, old_len: 1, new_index: nn });
+                        o += 1;
+                    }
+                    if nn < p + im {
+                        v.push(DiffOp::Insert { old_index: o, new_index: nn, new_len: 1 });
+                        nn += 1;
+                    }
+                }
+            }
+        }
+        if sfx > 0 {
+            v.push(DiffOp::Equal { old_index: n - sfx, new_index: m - sfx, len: sfx });
+        }
+        out.push((
+            ["prefix, delete, insert, suffix", "prefix, insert, delete, suffix", "prefix, interleaved unit deletes/inserts, suffix"][variant].to_string(),
+            v,
+        ));
+    }
+    Ok(out)
+}
+
+/// periodic inputs: a block of r periods inserted (or deleted) at every period boundary of a
+/// long periodic run, as one op — the places from which Compact has to slide far
+fn periodic_cases() -> Vec<(String, Vec<u32>, Vec<u32>, Vec<DiffOp>)> {
+    let mut out = vec![];
+    for &period in &[1usize, 2, 3] {
+        for &reps in &[40usize, 101, 150] {
+            for &r in &[1usize, 2, 3, 7] {
+                let short: Vec<u32> = (0..period * reps).map(|i| (i % period) as u32).collect();
+                let long: Vec<u32> = (0..period * (reps + r)).map(|i| (i % period) as u32).collect();
+                let k = period * r;
+                for &at in &[0usize, reps / 2, reps] {
+                    let j = at * period;
+                    let mut ins = vec![];
+                    if j > 0 {
+                        ins.push(DiffOp::Equal { old_index: 0, new_index: 0, len: j });
+                    }
+                    ins.push(DiffOp::Insert { old_index: j, new_index: j, new_len: k });
+                    if j < short.len() {
+                        ins.push(DiffOp::Equal { old_index: j, new_index: j + k, len: short.len() - j });
+                    }
+                    out.push((format!("period {} x {} reps, {} periods inserted at boundary {}", period, reps, r, at), short.clone(), long.clone(), ins));
+                    let mut del = vec![];
+                    if j > 0 {
+                        del.push(DiffOp::Equal { old_index: 0, new_index: 0, len: j });
+                    }
+                    del.push(DiffOp::Delete { old_index: j, old_len: k, new_index: j });
+                    if j < short.len() {
+                        del.push(DiffOp::Equal { old_index: j + k, new_index: j, len: short.len() - j });
+                    }
+                    out.push((format!("period {} x {} reps, {} periods deleted at boundary {}", period, reps, r, at), long.clone(), short.clone(), del));
+                }
+            }
+        }
+    }
+    out
+}
+
 fn scopes(tier: Tier) -> Vec<Scope> {
     match tier {
         Tier::Quick => vec![Scope::P { k: 2, n: 5 }, Scope::P { k: 3, n: 4 }, Scope::R { l: 8 }],
@@ -236,10 +356,79 @@ pub fn run(cfg: &RunCfg) -> CheckReport {
         json!("every model trace is executed on the implementation (3 adapter stacks each); the model only generates inputs, the oracle inspects the implementation's output"),
     );
     rep.part("scripts", json!({"scopes": space.describe(), "stacks": STACKS}), ex);
+    if rep.has_violation() {
+        return rep;
+    }
+    // enumerated large scripts (not exhaustive): per large input the raw stream of each algorithm
+    // and three hand-built scripts; plus periodic runs with a block inserted / deleted at a
+    // period boundary
+    let inputs = super::large::all(cfg.tier, cfg.seed);
+    let periodic = periodic_cases();
+    let total = inputs.len() + periodic.len();
+    let ex = explore(cfg, total, |shard, acc| {
+        if shard < inputs.len() {
+            let inp = &inputs[shard];
+            match scripts_for(inp) {
+                Err(e) => acc.violation(|| (json!({"large": inp.name, "seed": cfg.seed}), e)),
+                Ok(list) => {
+                    for (what, script) in list {
+                        match check_script(&script, &inp.old, &inp.new) {
+                            Ok(fp) => {
+                                if shard % 97 == 0 {
+                                    acc.sample(json!({"large": inp.name, "script": what, "calls": script.len()}));
+                                }
+                                acc.ok(script.len() >= 3, script.len() as u64, fp);
+                            }
+                            Err(e) => acc.violation(|| {
+                                (
+                                    json!({"large": inp.name, "seed": cfg.seed, "script_kind": what}),
+                                    format!("{} ({}): {}", inp.name, what, e),
+                                )
+                            }),
+                        }
+                        if acc.stop() {
+                            return;
+                        }
+                    }
+                }
+            }
+        } else {
+            let (name, old, new, script) = &periodic[shard - inputs.len()];
+            match check_script(script, old, new) {
+                Ok(fp) => {
+                    if shard % 31 == 0 {
+                        acc.sample(json!({"periodic": name}));
+                    }
+                    acc.ok(true, script.len() as u64, fp);
+                }
+                Err(e) => acc.violation(|| (json!({"periodic": name}), format!("{}: {}", name, e))),
+            }
+        }
+    });
+    rep.part("large-scripts", json!({"large_inputs": super::large::describe(cfg.tier), "scripts_per_input": "raw Myers / Patience / LCS(<=300) streams + 3 hand-built scripts", "periodic": periodic.len(), "note": "enumerated family, not exhaustive"}), ex);
     rep
 }
 
 pub fn replay(case: &Value) -> Result<String, String> {
+    if let Some(name) = case.get("periodic").and_then(|x| x.as_str()) {
+        for (n, old, new, script) in periodic_cases() {
+            if n == name {
+                return check_script(&script, &old, &new).map(|f| format!("holds; fingerprint {:x}", f));
+            }
+        }
+        return Err("unknown periodic case".into());
+    }
+    if let Some(name) = case.get("large").and_then(|x| x.as_str()) {
+        let seed = case.get("seed").and_then(|x| x.as_u64()).unwrap_or(0);
+        let inp = super::large::find(name, seed).ok_or("unknown large input")?;
+        let want = case.get("script_kind").and_then(|x| x.as_str());
+        for (what, script) in scripts_for(&inp)? {
+            if want.map_or(true, |w| w == what) {
+                check_script(&script, &inp.old, &inp.new).map_err(|e| format!("{} ({}): {}", inp.name, what, e))?;
+            }
+        }
+        return Ok("holds".into());
+    }
     let old = parse_seq(case, "old")?;
     let new = parse_seq(case, "new")?;
     let script = script_from_json(case.get("script").ok_or("no script")?)?;
